@@ -18,8 +18,9 @@ MANIFEST = {
             "brainwallet key is the selected hash/KDF; the program-derived address is the hash for the first bump in "
             "255, 254, ..., 1 that is off the curve (induction over the search), seeds in the order wallet, token program, "
             "mint. Extracted model vs implementation, and recomputation from the formulas with independent primitives.",
-    "note": "F7: the implementation raises TypeError (unhashable) for the documented Bip32KeyIndex arguments of Electrum v2 "
-            "(lru_cache); the model honours them, the divergence is the finding. BIP-32 child derivation, P2PKH/P2WPKH "
+    "note": "F7: the implementation does not honour the documented Bip32KeyIndex arguments of Electrum v2 (the path f-string "
+            "renders the object: Bip32PathError; TypeError 'unhashable' while the getters were lru_cached); the model honours "
+            "them, the divergence is the finding. BIP-32 child derivation, P2PKH/P2WPKH "
             "encoders, Solana address decoding and the ed25519 on-curve test are oracles (reference implementations in "
             "the harness). Brainwallet theorems are definitional.",
     "technique": "Coq proof (radix-10 digit lemmas, group-law rewriting, induction over the bump search) + generated-constant "
@@ -168,7 +169,8 @@ def direct_v2(a):
     except Bip32KeyError:
         return None if (o is None or (what == 0 and pubonly)) else "rejected with Bip32KeyError"
     except Exception as e:  # noqa
-        return "documented %s arguments raise %s: %s" % ("index-object" if (c[0] or i[0]) else "int", type(e).__name__, e)
+        return "documented %s arguments raise %s: %s" % ("index-object" if (c[0] or i[0]) else "int", type(e).__name__,
+                                                         str(e)[:60])
     if o is None:
         return "derivation should have failed"
     want = [o[0], o[1], (ref.p2pkh_btc_pub(o[1]) if wtype == 0 else ref.p2wpkh_btc_pub(o[1])).str()][what]
@@ -345,23 +347,28 @@ FUNCS = {
 # ------------------------------------------------------------------ known finding F7 (findings.d/C20.json)
 
 def known_f7_electrum_index_objects(fn, args, record):
-    """Electrum v2 entry points called with a Bip32KeyIndex object (documented argument type): TypeError (unhashable)."""
+    """Electrum v2 entry points called with a Bip32KeyIndex object (documented argument type) do not return the key:
+       the f-string path renders the object's repr -> Bip32PathError (TypeError 'unhashable' while the getters were cached).
+       Only calls where at least one index is an object, both carried values are valid indices, and the implementation
+       answered with exactly one of these two exceptions."""
     if fn != "electrum_v2" or not (args[4][0] == 1 or args[5][0] == 1):
         return False
+    if not (0 <= args[4][1] < 2**32 and 0 <= args[5][1] < 2**32):
+        return False
     if record.get("kind") == "divergence":
-        return record.get("impl") == {"err": "TypeError"}
-    return "TypeError" in record.get("what", "") and "unhashable" in record.get("what", "")
+        return record.get("impl") in ({"err": "TypeError"}, {"err": "Bip32PathError"})
+    w = record.get("what", "")
+    return "index-object" in w and ("Bip32PathError" in w or "TypeError" in w)
 
 
 def known_f7_electrum_index_objects_replay():
     w = ElectrumV2Standard(Bip32Slip10Secp256k1.FromSeed(bytes(range(16))))
+    want = w.GetPrivateKey(0, 1).Raw().ToBytes()
     try:
-        w.GetPrivateKey(Bip32KeyIndex(0), Bip32KeyIndex(1))
-    except TypeError as e:
-        return "ElectrumV2Standard.GetPrivateKey(Bip32KeyIndex(0), Bip32KeyIndex(1)) -> TypeError: %s" % e
+        got = w.GetPrivateKey(Bip32KeyIndex(0), Bip32KeyIndex(1)).Raw().ToBytes()
     except Exception as e:  # noqa
-        return "ElectrumV2Standard.GetPrivateKey(Bip32KeyIndex(0), Bip32KeyIndex(1)) -> %s" % type(e).__name__
-    return None
+        return "ElectrumV2Standard.GetPrivateKey(Bip32KeyIndex(0), Bip32KeyIndex(1)) -> %s: %s" % (type(e).__name__, str(e)[:80])
+    return None if got == want else "index objects give a different key than the ints they carry"
 
 
 # ------------------------------------------------------------------ generators
